@@ -340,7 +340,8 @@ func (b *ByteBuffer) AsyncWriteTo(w AsyncWriter, cb AsyncCallback) {
 // bytes are available, ErrNeedMore is returned and no bytes are committed to
 // the read area, hence made available for reading.
 func (b *ByteBuffer) PrepareRead(n int) (err error) {
-	if need := n - b.ReadLen(); need > 0 {
+	if n > b.ReadLen() {
+		need := n - b.ReadLen()
 		if b.WriteLen() >= need {
 			b.Commit(need)
 		} else {
